@@ -46,6 +46,8 @@ fn strategy() -> BoxedStrategy<AsyncWorld> {
 // ---------------------------------------------------------------- guest side
 
 /// the canonical built-ins of the async runtime, forwarded to a table the host installs
+const KF_INDIRECT_PARAMS: &str = "heap-leak: async export with more than 16 flat parameters never frees the parameter area";
+
 const ASYNC_GLUE: &str = r#"
 #[repr(C)]
 pub struct AsyncHost {
@@ -668,7 +670,11 @@ fn run(so: &std::path::Path, aw: &AsyncWorld, imports: &[(String, String)], eval
                     format!("{s} bytes {:?}", String::from_utf8_lossy(bytes))
                 })
                 .collect();
-            exec::fail("heap-leak", format!("call of f{f} (async export {aexp}, async import {aimp}, import answers with status {}) with {:?} -> {:?}: {} heap blocks / {} bytes are still allocated after the call finished (the same call through sync bindings leaves none); live blocks: {blocks:?}", aw.schedule[ci % aw.schedule.len().max(1)], call.params, call.result, after[0] as i64 - before[0] as i64, after[1] as i64 - before[1] as i64));
+            // listed finding: the area the host allocates (cabi_realloc) for more than 16 flat
+            // parameters is freed by sync exports only
+            let area = ABI.size(&refabi::Ty::Tuple(func.params.clone())) as i64;
+            let sig = if aexp && world.flat_params(f).len() > 16 && after[0] as i64 - before[0] as i64 == 1 && after[1] as i64 - before[1] as i64 == area { KF_INDIRECT_PARAMS } else { "heap-leak" };
+            exec::fail(sig, format!("call of f{f} (async export {aexp}, async import {aimp}, import answers with status {}) with {:?} -> {:?}: {} heap blocks / {} bytes are still allocated after the call finished (the same call through sync bindings leaves none); live blocks: {blocks:?}", aw.schedule[ci % aw.schedule.len().max(1)], call.params, call.result, after[0] as i64 - before[0] as i64, after[1] as i64 - before[1] as i64));
         }
     }
     let fails = exec::take_failures();
@@ -686,7 +692,25 @@ pub fn run_check(check: &mut Check) {
     }
     vcommon::abort::install(&check.id, "worlds", check.sub_seed("worlds", 0));
     let nworlds = std::env::var("VERIF_N").ok().and_then(|s| s.parse().ok()).unwrap_or(check.tier.pick(42usize, 700));
-    let worlds: Vec<AsyncWorld> = check.draw("worlds", &strategy(), nworlds);
+    let mut worlds: Vec<AsyncWorld> = check.draw("worlds", &strategy(), nworlds);
+    // the listed finding is excluded by construction (such functions keep a sync export) and
+    // shown once by its witness, so that the search goes on behind it
+    let listed = check.known.matches(KF_INDIRECT_PARAMS);
+    let mut excluded = 0u64;
+    if listed {
+        for aw in worlds.iter_mut() {
+            for f in 0..aw.world.funcs.len() {
+                if aw.modes[f].0 && aw.world.flat_params(f).len() > 16 {
+                    aw.modes[f].0 = false;
+                    excluded += 1;
+                }
+            }
+        }
+        check.assumptions.push(format!("{excluded} generated functions with more than 16 flat parameters were bound as sync exports instead of async ones (listed finding, shown by its witness)"));
+        let p: Vec<(String, Ty)> = (0..17).map(|i| (format!("m{i}"), Ty::U32)).collect();
+        let world = ProxyWorld { funcs: vec![exec::Func { params: vec![refabi::Ty::Record(p)], result: None, sink: false }], calls: vec![exec::Call { func: 0, params: vec![refabi::Val::Record((0..17).map(refabi::Val::U32).collect())], result: None }] };
+        worlds.insert(0, AsyncWorld { world, modes: vec![(true, false)], schedule: vec![0] });
+    }
     for chunk in worlds.chunks(70) {
         let members: Vec<Member> = chunk.iter().map(member).collect();
         let built = exec::build_rust(&members);
@@ -715,7 +739,13 @@ pub fn run_check(check: &mut Check) {
                 for (e, i) in &aw.modes {
                     obs.label(format!("export:{} import:{}", if *e { "async" } else { "sync" }, if *i { "async" } else { "sync" }));
                 }
+                // (a listed finding never hides another failure of the same world)
+                let mut fails = fails;
+                fails.sort_by_key(|(sig, _)| sig == KF_INDIRECT_PARAMS);
                 if let Some((sig, msg)) = fails.into_iter().next() {
+                    if sig == KF_INDIRECT_PARAMS {
+                        return Err(Failure::new(sig, format!("{msg}\nmodes: {}\nWIT:\n{}", m.variant, m.wit)));
+                    }
                     return Err(Failure::new(format!("{sig} [{}]", m.variant), format!("{msg}\nmodes (E/e = async/sync export, I/i = async/sync import per function): {}\nWIT:\n{}", m.variant, m.wit)));
                 }
                 Ok(())
